@@ -83,7 +83,7 @@ Definition gspec_ok (c : gcase) (o : gout) : bool :=
       optb_same d (spec_choice O san global name ovs)
       && Bool.eqb ty (match d with Some _ => true | None => false end)
   | CRoll n dur ops, ORoll l => rspec_run O n dur (rspec0 O) ops l
-  | CQuant q _ _, OQuant v label _ fd => quant_ok O (fzero O) (fone q) q v label fd
+  | CQuant q _ _, OQuant v label _ fd => quant_ok O q v label fd
   | _, _ => false
   end.
 
@@ -93,6 +93,7 @@ Definition gwf (c : gcase) : bool :=
   | CHist _ _ => true
   | CDist fixed _ _ _ _ => fixed
   | CRoll n dur _ => (0 <? n) && (0 <? dur)
+  | CQuant _ _ _ => false      (* differential only: the label depends on the float-formatting oracle *)
   end.
 
 End Generic.
@@ -107,8 +108,18 @@ Definition pf_within (q lo hi : float) : bool :=
 Definition pf_isinf (x : float) : bool :=
   PrimFloat.eqb x PrimFloat.infinity || PrimFloat.eqb x PrimFloat.neg_infinity.
 
+(* f64::max / f64::min (a NaN operand yields the other one; on a tie, which only matters for -0.0 against
+   the constant 0.0, the constant second operand is returned — as observed on the real code) *)
+Definition pf_isnan (x : float) : bool := negb (PrimFloat.eqb x x).
+Definition pf_max (a b : float) : float :=
+  if pf_isnan a then b else if pf_isnan b then a else if PrimFloat.ltb b a then a else b.
+Definition pf_min (a b : float) : float :=
+  if pf_isnan a then b else if pf_isnan b then a else if PrimFloat.ltb a b then a else b.
+Definition pf_clamp01 (q : float) : float := pf_min (pf_max q PrimFloat.zero) PrimFloat.one.
+
 Definition PF : FloatOps :=
-  {| F := float; fle := PrimFloat.leb; fadd := PrimFloat.add; fzero := PrimFloat.zero;
+  {| F := float; fle := PrimFloat.leb; fadd := PrimFloat.add; fzero := PrimFloat.zero; fone := PrimFloat.one;
+     fclamp01 := pf_clamp01;
      fpinf := PrimFloat.infinity; fninf := PrimFloat.neg_infinity; fisinf := pf_isinf;
      fwithin := pf_within; fsame := f64_same |}.
 
@@ -136,5 +147,7 @@ Definition ohist (b : list float) (s : list (list N * N * float)) : out := OHist
 Definition odist (ty : bool) (d : option (list float)) : out := ODist PF ty d.
 Definition oroll (l : list (rout PF)) : out := ORoll PF l.
 Definition opanic : out := OPanic PF.
+Definition cquant (q : float) (fc fd : list N) : case := CQuant PF q fc fd.
+Definition oquant (v : float) (l fc fd : list N) : out := OQuant PF v l fc fd.
 Definition oadd (c : N) : rout PF := OAdd PF c.
 Definition osnap (c : N) (s : float) (sc : N) (mn mx : float) (qs : list float) : rout PF := OSnap PF c s sc mn mx qs.
